@@ -37,3 +37,120 @@ structure MoneyInv (σ : Tbl Denom Int) (s : State) : Prop where
   supplyEq : s.supply = σ
 
 end Hub.Model
+
+namespace Hub.Model
+open Hub.SDK
+
+/-- C18: every identifier in use was issued by its counter (ids start at 1), records are stored
+under their own identifier, allocations, payouts and sessions carry an issued subscription id, and
+no index or queue entry mentions an identifier that has not been issued yet. -/
+structure CountInv (s : State) : Prop where
+  plans : ∀ i p, (s.planActive.get i = some p ∨ s.planInactive.get i = some p) → p.id = i ∧ 1 ≤ i ∧ i ≤ s.planCount.getD 0
+  subs : ∀ i x, s.subs.get i = some x → x.id = i ∧ 1 ≤ i ∧ i ≤ s.subCount.getD 0
+  allocs : ∀ i a al, s.allocs.get (i, a) = some al → al.id = i ∧ al.addr = a ∧ 1 ≤ i ∧ i ≤ s.subCount.getD 0
+  payouts : ∀ i p, s.payouts.get i = some p → p.id = i ∧ 1 ≤ i ∧ i ≤ s.subCount.getD 0
+  sessions : ∀ i x, s.sessions.get i = some x → x.id = i ∧ 1 ≤ i ∧ i ≤ s.sessCount.getD 0 ∧ 1 ≤ x.sub ∧ x.sub ≤ s.subCount.getD 0
+  planIdx : (∀ a i, s.planForProv.has (a, i) = true → i ≤ s.planCount.getD 0) ∧
+            (∀ i n, s.nodeForPlan.has (i, n) = true → i ≤ s.planCount.getD 0)
+  subIdx : (∀ t i, s.subQ.has (t, i) = true → i ≤ s.subCount.getD 0) ∧
+           (∀ a i, s.subForAcc.has (a, i) = true → i ≤ s.subCount.getD 0) ∧
+           (∀ a i, s.subForNode.has (a, i) = true → i ≤ s.subCount.getD 0) ∧
+           (∀ p i, s.subForPlan.has (p, i) = true → i ≤ s.subCount.getD 0) ∧
+           (∀ t i, s.payQ.has (t, i) = true → i ≤ s.subCount.getD 0) ∧
+           (∀ a i, s.payForAcc.has (a, i) = true → i ≤ s.subCount.getD 0) ∧
+           (∀ a i, s.payForNode.has (a, i) = true → i ≤ s.subCount.getD 0) ∧
+           (∀ a n i, s.payForAccNode.has (a, n, i) = true → i ≤ s.subCount.getD 0)
+  sessIdx : (∀ t i, s.sessQ.has (t, i) = true → i ≤ s.sessCount.getD 0) ∧
+            (∀ a i, s.sessForAcc.has (a, i) = true → i ≤ s.sessCount.getD 0) ∧
+            (∀ a i, s.sessForNode.has (a, i) = true → i ≤ s.sessCount.getD 0) ∧
+            (∀ u i, s.sessForSub.has (u, i) = true → i ≤ s.sessCount.getD 0) ∧
+            (∀ u a i, s.sessForAlloc.has (u, a, i) = true → i ≤ s.sessCount.getD 0)
+
+/-- Records of the partitioned tables sit under their own address in the partition of their status,
+and never in both partitions. -/
+structure RecInv (s : State) : Prop where
+  nodeA : ∀ a n, s.nodeActive.get a = some n → n.addr = a ∧ n.status = .StatusActive
+  nodeI : ∀ a n, s.nodeInactive.get a = some n → n.addr = a ∧ n.status = .StatusInactive ∧ n.inactiveAt = zeroTime
+  nodeX : ∀ a, ¬ (s.nodeActive.has a = true ∧ s.nodeInactive.has a = true)
+  provA : ∀ a p, s.provActive.get a = some p → p.addr = a ∧ p.status = .StatusActive
+  provI : ∀ a p, s.provInactive.get a = some p → p.addr = a ∧ p.status = .StatusInactive
+  provX : ∀ a, ¬ (s.provActive.has a = true ∧ s.provInactive.has a = true)
+  planA : ∀ i p, s.planActive.get i = some p → p.id = i ∧ p.status = .StatusActive
+  planI : ∀ i p, s.planInactive.get i = some p → p.id = i ∧ p.status = .StatusInactive
+  planX : ∀ i, ¬ (s.planActive.has i = true ∧ s.planInactive.has i = true)
+
+/-- C09 (node/plan side): the node expiry queue holds exactly the active nodes at their deadline;
+the by-provider plan index holds exactly the plans; links point at existing plans and nodes. -/
+structure NodeIdx (s : State) : Prop where
+  nodeQ : ∀ t a, s.nodeQ.has (t, a) = true ↔ ∃ n, s.nodeActive.get a = some n ∧ n.inactiveAt = t
+  planForProv : ∀ a i, s.planForProv.has (a, i) = true ↔ ∃ p, getPlan s i = some p ∧ p.prov = a
+  links : ∀ i n, s.nodeForPlan.has (i, n) = true → (getPlan s i).isSome ∧ hasNode s n = true
+  nodupQ : Tbl.Nodup s.nodeQ ∧ Tbl.Nodup s.planForProv ∧ Tbl.Nodup s.nodeForPlan ∧ Tbl.Nodup s.nodeActive ∧
+           Tbl.Nodup s.nodeInactive ∧ Tbl.Nodup s.provActive ∧ Tbl.Nodup s.provInactive ∧ Tbl.Nodup s.planActive ∧ Tbl.Nodup s.planInactive
+
+/-- C09 (session side): every secondary key of a session exists exactly while the session does. -/
+structure SessIdx (s : State) : Prop where
+  q : ∀ t i, s.sessQ.has (t, i) = true ↔ ∃ x, s.sessions.get i = some x ∧ x.inactiveAt = t
+  acc : ∀ a i, s.sessForAcc.has (a, i) = true ↔ ∃ x, s.sessions.get i = some x ∧ x.addr = a
+  node : ∀ a i, s.sessForNode.has (a, i) = true ↔ ∃ x, s.sessions.get i = some x ∧ x.node = a
+  sub : ∀ u i, s.sessForSub.has (u, i) = true ↔ ∃ x, s.sessions.get i = some x ∧ x.sub = u
+  alloc : ∀ u a i, s.sessForAlloc.has (u, a, i) = true ↔ ∃ x, s.sessions.get i = some x ∧ x.sub = u ∧ x.addr = a
+  nodup : Tbl.Nodup s.sessions ∧ Tbl.Nodup s.sessQ ∧ Tbl.Nodup s.sessForAcc ∧ Tbl.Nodup s.sessForNode ∧
+          Tbl.Nodup s.sessForSub ∧ Tbl.Nodup s.sessForAlloc
+
+/-- Is this the record of a per-hour node subscription of `a` on node `n`? -/
+def Sub.hourlyOn (x : Sub) (a n : Addr) : Prop := ∃ gb hr dep, x.kind = .node n gb hr dep ∧ hr ≠ 0 ∧ x.addr = a
+
+/-- C09 (subscription side): queue, by-account/node/plan indices, allocations, payouts and the
+lease index agree with the subscription records. -/
+structure SubIdx (s : State) : Prop where
+  q : ∀ t i, s.subQ.has (t, i) = true ↔ ∃ x, s.subs.get i = some x ∧ x.inactiveAt = t
+  node : ∀ n i, s.subForNode.has (n, i) = true ↔ ∃ x gb hr dep, s.subs.get i = some x ∧ x.kind = .node n gb hr dep
+  plan : ∀ p i, s.subForPlan.has (p, i) = true ↔ ∃ x d, s.subs.get i = some x ∧ x.kind = .plan p d
+  acc : ∀ a i, s.subForAcc.has (a, i) = true ↔ ∃ x, s.subs.get i = some x ∧ (x.addr = a ∨ s.allocs.has (i, a) = true)
+  allocSub : ∀ i a, s.allocs.has (i, a) = true → s.subs.has i = true
+  ownerAlloc : ∀ i x, s.subs.get i = some x → isHourly x = false → s.allocs.has (i, x.addr) = true
+  hourlyNoAlloc : ∀ i x a, s.subs.get i = some x → isHourly x = true → s.allocs.has (i, a) = false
+  nodeSubAlloc : ∀ i x a, s.subs.get i = some x → isPlanSub x = false → s.allocs.has (i, a) = true → a = x.addr
+  payout : ∀ i, s.payouts.has i = true ↔ ∃ x, s.subs.get i = some x ∧ isHourly x = true
+  payoutRec : ∀ i p x, s.payouts.get i = some p → s.subs.get i = some x → x.hourlyOn p.addr p.node ∧ 0 ≤ p.hours
+  payAcc : ∀ a i, s.payForAcc.has (a, i) = true ↔ ∃ p, s.payouts.get i = some p ∧ p.addr = a
+  payNode : ∀ n i, s.payForNode.has (n, i) = true ↔ ∃ p, s.payouts.get i = some p ∧ p.node = n
+  lease : ∀ a n i, s.payForAccNode.has (a, n, i) = true ↔
+            ∃ p x, s.payouts.get i = some p ∧ p.addr = a ∧ p.node = n ∧ s.subs.get i = some x ∧ x.status = .StatusActive
+  payQ : ∀ t i, s.payQ.has (t, i) = true ↔
+            ∃ p x, s.payouts.get i = some p ∧ p.nextAt = t ∧ 0 < p.hours ∧ s.subs.get i = some x ∧ x.status = .StatusActive
+  nodup : Tbl.Nodup s.subs ∧ Tbl.Nodup s.subQ ∧ Tbl.Nodup s.subForAcc ∧ Tbl.Nodup s.subForNode ∧ Tbl.Nodup s.subForPlan ∧
+          Tbl.Nodup s.allocs ∧ Tbl.Nodup s.payouts ∧ Tbl.Nodup s.payQ ∧ Tbl.Nodup s.payForAcc ∧ Tbl.Nodup s.payForNode ∧
+          Tbl.Nodup s.payForAccNode
+
+/-- C06 (bounds): every allocation has `0 ≤ used ≤ granted`. -/
+def AllocBounds (s : State) : Prop := ∀ k al, s.allocs.get k = some al → 0 ≤ al.used ∧ al.used ≤ al.granted
+
+/-- Granted bytes of all allocations of subscription `i`. -/
+def grantedTotal (s : State) (i : Nat) : Int := s.allocs.sumKV (fun k al => if k.1 = i then al.granted else 0)
+
+/-- What was bought: purchased gigabytes for a node subscription, the plan's gigabytes for a plan one. -/
+def bought (s : State) (x : Sub) : Option Int :=
+  match x.kind with
+  | .node _ gb _ _ => some (Hub.Generated.Gigabyte * gb)
+  | .plan p _ => (getPlan s p).map (fun pl => Hub.Generated.Gigabyte * pl.gb)
+
+/-- C06 (conservation): the grants of a subscription add up to what was bought. -/
+def QuotaConserved (s : State) : Prop := ∀ i x, s.subs.get i = some x → bought s x = some (grantedTotal s i)
+
+/-- C04/C03 (lifecycle coupling), for a bound `M` with `sessDelay ≤ M ≤ subDelay` throughout the
+history (the monotone delay coupling H_delay of DESIGN.md §5 D7): a session's subscription exists; an
+active session's subscription is active; a session that is winding down ends no later than its
+subscription is removed; sessions and subscriptions have one of the three statuses. -/
+structure LifeInv (M : Dur) (s : State) : Prop where
+  delays : 0 < s.params.sessDelay ∧ s.params.sessDelay ≤ M ∧ M ≤ s.params.subDelay
+  sessSub : ∀ i x, s.sessions.get i = some x → ∃ y, s.subs.get x.sub = some y
+  sessStatus : ∀ i x, s.sessions.get i = some x → x.status = .StatusActive ∨ x.status = .StatusInactivePending
+  subStatus : ∀ i y, s.subs.get i = some y → y.status = .StatusActive ∨ y.status = .StatusInactivePending
+  activeSess : ∀ i x y, s.sessions.get i = some x → s.subs.get x.sub = some y → x.status = .StatusActive → y.status = .StatusActive
+  pendingSess : ∀ i x y, s.sessions.get i = some x → s.subs.get x.sub = some y → y.status = .StatusInactivePending →
+                  x.inactiveAt ≤ y.inactiveAt
+  sessBound : ∀ i x, s.sessions.get i = some x → x.inactiveAt ≤ s.time + M
+
+end Hub.Model
